@@ -50,6 +50,13 @@ def make_trees(r, tier, names, fgs):
             trees.append(("library", T.random_tree(r, size, names=pool)))
         else:
             trees.append(("rootform", T.random_tree(r, size, root_names=list(T.ROOT_ONLY))))
+    # every code of the library in every ring form once as a linked child (both anomers over the run) and once as a parent
+    sweep = names if tier == "thorough" else r.sample(names, min(len(names), 60))
+    for nm in sweep:
+        T.RES.setdefault(nm, (2 if any(k in nm for k in ("Neu", "Kd", "Fru", "Sor", "Tag", "Psi", "Leg", "Pse", "Aci", "Dha", "Ko", "Sia", "Rul", "Xlu", "Xul")) else 1, (2, 3, 4, 6), (), "lib"))
+        c1 = T.RES[nm][0]
+        trees.append(("sweep", T.Node("Glc", [(r.choice("ab"), c1, 4, T.Node(nm))])))
+        trees.append(("sweep", T.Node(nm, [("b", 1, r.choice([3, 4]), T.Node("Gal"))])))
     # size-extended residues (root sugar + Pen/Hex/Hep/Oct, optional DD/LD/... and deoxy prefixes) in every place of a tree
     resized = [pre + b + sz + suf for b in ("Man", "Glc", "Gal", "Alt", "Ara", "Xyl", "Lyx", "Gul", "Tal", "Ido")
                for sz in ("Hex", "Hep", "Oct") for pre in ("", "LD", "DD", "DL", "LL", "6d", "4d", "D-", "L-", "3d") for suf in ("", "7P", "f")
